@@ -27,6 +27,10 @@ type jobj struct {
 type DocGen struct {
 	Doc *oas.Doc
 	Rng *rand.Rand
+	// WithNull adds the fault kind "null" (a present declared property set to
+	// null, whatever its nullability): C08 does not judge it, C18 compares
+	// how the two forms of a spec treat it.
+	WithNull bool
 }
 
 type Fault struct {
@@ -335,6 +339,9 @@ func (d *DocGen) Faults(doc any, schemaNode any) []struct {
 				pss := d.Doc.Schema(ps)
 				if t.vals[key] != nil {
 					sites = append(sites, site{p, "wrong-type", key, pss})
+					if d.WithNull {
+						sites = append(sites, site{p, "null", key, pss})
+					}
 				}
 				walk(t.vals[key], ps, p, depth+1)
 			}
@@ -377,6 +384,8 @@ func (d *DocGen) Faults(doc any, schemaNode any) []struct {
 				continue
 			}
 			parent.vals[key] = wv
+		case "null":
+			parent.vals[key] = nil
 		}
 		out = append(out, struct {
 			Doc   any
